@@ -13,6 +13,7 @@ import ast
 import io
 import keyword
 import tokenize
+import unicodedata
 
 SOFT = {'match', 'case', '_', 'type'}
 
@@ -49,7 +50,9 @@ def classify(text):
 
     def mark(pos, verdict, name=None):
         v = out.get(pos)
-        if v is not None and (name is None or v[0] == name) and v[1] != 'open':
+        # (ast identifiers are NFKC-normalised by the compiler, tokens are as written)
+        if v is not None and (name is None or v[0] == name
+                              or unicodedata.normalize('NFKC', v[0]) == name) and v[1] != 'open':
             v[1] = verdict
         elif v is not None and verdict == 'open':
             v[1] = 'open'
